@@ -38,8 +38,11 @@ for rel, m in sorted(repo.modules.items()):
             out['%s:%s' % (rel, q)] = sig
         import hashlib
         out['%s:%s#digest' % (rel, q)] = hashlib.sha256(ast.dump(f.node, include_attributes=False).encode()).hexdigest()[:16]
+        lines = m.source.split('\n')
+        first = min([orig.lineno] + [d.lineno for d in orig.decorator_list])
+        out['%s:%s#src' % (rel, q)] = [first, '\n'.join(lines[first - 1:orig.end_lineno])]
         ct = commutative_texts(orig)
         if ct:
             out['%s:%s#commutative' % (rel, q)] = ct
 json.dump(out, open(os.path.join(HERE, 'pydlsa', 'role_ref.json'), 'w'), indent=0)
-print('role_ref.json: %d functions, %d locals' % (len(out), sum(len(v) for v in out.values())))
+print('role_ref.json: %d entries' % len(out))
